@@ -105,12 +105,35 @@ def grep_forbidden(fam=None):
     return hits
 
 
+GATED = []     # (family, property) pairs that went through a proof gate in this process (for the thorough tier's coqchk)
+
+
+def coqchk(fam, prop, timeout=1500):
+    """independent re-check of the compiled property file and everything it depends on (coqchk -o): returns (ok, axioms text)"""
+    qargs = ["-Q", COQ, "PV"]
+    mod = "PV.Properties." + prop
+    if fam.name != "main":
+        lr = "PV" + fam.name.capitalize()
+        qargs += ["-Q", fam.coq, lr]
+        mod = lr + ".Properties." + prop
+    with Lock("coq_" + fam.name):
+        rc, out = sh(["timeout", str(timeout), "coqchk", "-o", "-silent"] + qargs + [mod], cwd=fam.coq, timeout=timeout + 30)
+    m = re.search(r"\* Axioms:(.*?)\n\s*\n\* Constants/Inductives relying on type-in-type:(.*?)\n\s*\n\* Constants/Inductives relying on unsafe \(co\)fixpoints:(.*?)\n\s*\n\* Inductives whose positivity is assumed:(.*?)(?:\n\s*\n|\Z)", out, flags=re.S)
+    if rc != 0 or not m:
+        return False, "coqchk failed: " + out[-400:]
+    parts = [x.strip() for x in m.groups()]
+    axioms = [a for a in re.split(r"\s+", parts[0]) if a and a != "<none>" and a not in AXIOM_ALLOW]
+    ok = not axioms and all(x == "<none>" for x in parts[1:])
+    return ok, "axioms: %s; type-in-type: %s; unsafe fixpoints: %s; assumed positivity: %s" % tuple(parts)
+
+
 def proof_gate(prop, fam=None):
     """Builds Properties/<prop>.vo (and its dependencies) from the regenerated tables, re-runs
     coqc on the property file to capture Print Assumptions, checks axioms and forbidden words.
     Returns dict(ok, obligations, discharged, theorems, axioms, failed, log)."""
     res = dict(ok=False, obligations=0, discharged=0, theorems=[], axioms=[], failed=None, log="")
     fam = fam or MAIN
+    GATED.append((fam, prop))
     vfile = os.path.join(fam.coq, "Properties", prop + ".v")
     src = open(vfile, encoding="utf-8").read()
     thms = re.findall(r"^(?:Theorem|Corollary)\s+(\w+)", src, flags=re.M)
@@ -345,6 +368,19 @@ class Check:
             self._parts[self._part] = {k: self.cov[k] for k in self.PART_KEYS if k in self.cov}
             return 1 if self.violations else 0
         self.cov["distinct_nontrivial"] = len(self._distinct)
+        if self.tier == "thorough" and GATED and not os.environ.get("PV_NO_COQCHK"):
+            # the thorough tier re-checks the compiled proofs with the independent checker
+            done, res = set(), {}
+            for fam, prop in GATED:
+                if (fam.name, prop) in done:
+                    continue
+                done.add((fam.name, prop))
+                ok, txt = coqchk(fam, prop)
+                res["%s/%s" % (fam.name, prop)] = txt
+                if not ok:
+                    self.violation("coqchk does not accept %s/Properties/%s.vo: %s" % (fam.name, prop, txt[:300]),
+                                   dict(kind="proof", checker="coqchk -o", family=fam.name, theorem_file="Properties/%s.v" % prop, output=txt), no_input=True)
+            self.cov["coqchk"] = res
         ev = dict(property_id=self.prop, tier=self.tier, seed=self.seed, level=self.level,
                   coverage=self.cov, assumptions=self.assumptions, wall_s=round(time.time() - self.t0, 2),
                   violations=len(self.violations))
